@@ -297,7 +297,12 @@ class sequence_variables:
             pass
         r = []
         while end < l_:
+            last = end
             start, end, spam = opt(end + 1 - overlap, 0, sz, orphan, sequence)
+            if end <= last:
+                # overlap >= size: the following batches would repeat
+                # for ever
+                break
             v = sequence_variables(self.items, self.query_string,
                                    self.start_name_re)
             d = v.data
@@ -326,8 +331,13 @@ class sequence_variables:
             pass
         r = []
         while start > 1:
+            first = start
             start, end, spam = opt(0, start - 1 + overlap, sz, orphan,
                                    sequence)
+            if start >= first:
+                # overlap >= size: the preceding batches would repeat
+                # for ever
+                break
             v = sequence_variables(self.items, self.query_string,
                                    self.start_name_re)
             d = v.data
